@@ -609,6 +609,58 @@ def gen_ffi_tables(repo):
     funcs += 'Definition channel_method_of (request : string) : string :=\n  if orb (String.eqb request "read_coils") (String.eqb request "read_discrete_inputs") then "read_bits"\n'
     funcs += '  else if orb (String.eqb request "read_holding_registers") (String.eqb request "read_input_registers") then "read_registers" else request.\n\n'
 
+    # ------------------------------------------------------------------ plain data crossing the boundary: which source field feeds which target field
+    def accessor(e, var):
+        """`x.index` / `value.timeout()` / `UnitId::new(value.unit_id)` -> the source field name, else the raw text"""
+        t = ''.join(e.split())
+        m = re.fullmatch(r'(?:UnitId::new\()?' + var + r'\.(\w+)(?:\(\))?\)?', t)
+        return m.group(1) if m else t
+    fw = []
+    r_types = R('rodbus/src/types.rs')
+    r_retry = R('rodbus/src/retry.rs')
+    m = re.search(r'pub\s+fn\s+new\s*\(\s*(\w+)\s*:\s*u16\s*,\s*(\w+)\s*:\s*T\s*\)\s*->\s*Self\s*\{\s*Indexed\s*\{\s*(\w+)\s*,\s*(\w+)\s*\}', r_types)
+    if not m or (m.group(1), m.group(2)) != (m.group(3), m.group(4)):
+        raise ParseError('types.rs: Indexed::new(index, value) -> Indexed { index, value } not found')
+    idx_params = [m.group(1), m.group(2)]
+    for ffi_ty, rust_ty in [('BitValue', 'Indexed<bool>'), ('RegisterValue', 'Indexed<u16>')]:
+        b = rp.find_body(rp.find_body(conv, r'impl\s+std::convert::From<ffi::' + ffi_ty + r'>\s+for\s+rodbus::' + re.escape(rust_ty) + r'\s*\{'), r'fn\s+from\s*\(\s*(\w+)\s*:[^)]*\)\s*->\s*Self\s*\{')
+        mm = re.fullmatch(r'rodbus::Indexed::new\((.*)\)', ''.join(b.split()))
+        if not mm:
+            raise ParseError(f'conversions.rs: From<ffi::{ffi_ty}> is not rodbus::Indexed::new(..)')
+        args = rp.split_top(mm.group(1))
+        if len(args) != 2:
+            raise ParseError(f'conversions.rs: From<ffi::{ffi_ty}>: Indexed::new with {len(args)} arguments')
+        for pn, a in zip(idx_params, args):
+            fw.append((rust_ty, pn, accessor(a, 'x')))
+    b = rp.find_body(rp.find_body(conv, r'impl\s+From<AddressRange>\s+for\s+ffi::AddressRange\s*\{'), r'fn\s+from\s*\(\s*x\s*:[^)]*\)\s*->\s*Self\s*\{')
+    mm = re.fullmatch(r'ffi::AddressRange\{(.*?),?\}', ''.join(b.split()))
+    if not mm:
+        raise ParseError('conversions.rs: From<AddressRange> for ffi::AddressRange is not a struct literal')
+    for item in rp.split_top(mm.group(1)):
+        f, e = item.split(':', 1)
+        fw.append(('ffi::AddressRange', f, accessor(e, 'x')))
+    b = rp.find_body(rp.find_body(fclient, r'impl\s+From<ffi::RequestParam>\s+for\s+RequestParam\s*\{'), r'fn\s+from\s*\(\s*value\s*:[^)]*\)\s*->\s*Self\s*\{')
+    mm = re.fullmatch(r'Self\{(.*?),?\}', ''.join(b.split()))
+    if not mm:
+        raise ParseError('client.rs: From<ffi::RequestParam> is not a struct literal')
+    for item in rp.split_top(mm.group(1)):
+        f, e = item.split(':', 1)
+        fw.append(('RequestParam', f, accessor(e, 'value')))
+    m = re.search(r'pub\s+fn\s+doubling_retry_strategy\s*\(\s*(\w+)\s*:\s*Duration\s*,\s*(\w+)\s*:\s*Duration\s*\)', r_retry)
+    if not m:
+        raise ParseError('retry.rs: doubling_retry_strategy(min, max) not found')
+    b = rp.find_body(rp.find_body(conv, r'impl\s+From<ffi::RetryStrategy>\s+for\s+Box<dyn RetryStrategy>\s*\{'), r'fn\s+from\s*\(\s*from\s*:[^)]*\)\s*->\s*Self\s*\{')
+    mm = re.fullmatch(r'rodbus::doubling_retry_strategy\((.*)\)', ''.join(b.split()))
+    if not mm:
+        raise ParseError('conversions.rs: From<ffi::RetryStrategy> is not rodbus::doubling_retry_strategy(..)')
+    args = rp.split_top(mm.group(1))
+    if len(args) != 2:
+        raise ParseError('conversions.rs: doubling_retry_strategy call does not have two arguments')
+    for pn, a in zip([m.group(1), m.group(2)], args):
+        fw.append(('doubling_retry_strategy', pn, accessor(a, 'from')))
+    funcs += '(* plain data: (target struct / constructor, its field / parameter, the source field that feeds it) *)\n'
+    funcs += 'Definition field_forwarding : list (string * string * string) := [\n' + ';\n'.join(f'  ({coq_str(a)}, {coq_str(b_)}, {coq_str(c)})' for a, b_, c in fw) + '\n].\n\n'
+
     out = 'Local Open Scope string_scope.\n\n' + en.render() + funcs
     out += '(* every conversion table: (Coq function, source enum, target enum) *)\n'
     out += 'Definition conversion_tables : list string := [' + '; '.join(coq_str(t[0]) for t in tables) + '].\n'
